@@ -267,17 +267,12 @@ def run(res, tier, seed):
                       trusted_extra=TRUSTED)
 
 
-BATCH_SHAPE = "{ var validCmds []Cmd for _, c := range cmds { if c == nil { continue } validCmds = append(validCmds, c) } switch len(validCmds) { case 0: return nil case 1: return validCmds[0] default: return func() Msg { return BatchMsg(validCmds) } } }"
-HANDLE_COMMANDS_SHAPE = "{ ch := make(chan struct{}) go func() { defer close(ch) for { select { case <-p.ctx.Done(): return case cmd := <-cmds: if cmd == nil { continue } go func() { if !p.startupOptions.has(withoutCatchPanics) { defer p.recoverFromPanic() } msg := cmd() p.Send(msg) }() } } }() return ch }"
-BATCH_CASE_SHAPE = "for _, cmd := range msg { select { case <-p.ctx.Done(): return model, nil case cmds <- cmd: } } ; continue"
-
+# the shapes themselves are frozen in coq/theories/RefShapes.v (alpha-normalised by the translator)
 
 def tie_batch(res):
-    pre = ("From Coq Require Import List Bool String.\nImport ListNotations.\nOpen Scope string_scope.\nFrom BT Require Model.GenTypes.\nFrom BTGen Require Signals ChanOps.\n")
-    esc = lambda s: s.replace('"', '""')   # noqa: E731
-    body = ["Definition shape_is (n b : string) := match find (fun x => fst x =? n) Signals.shapes with Some (_, b') => b' =? b | None => false end.",
-            'Definition init_forwarded := forallb (fun c => negb (fst c =? "Run")) ChanOps.send_calls && existsb (fun o => (GenTypes.co_func o =? "Run") && (GenTypes.co_chan o =? "cmds")) ChanOps.chanops.',
-            'Definition t := (init_forwarded, shape_is "Batch" "%s", shape_is "handleCommands" "%s", shape_is "eventLoop:BatchMsg" "%s").' % (esc(BATCH_SHAPE), esc(HANDLE_COMMANDS_SHAPE), esc(BATCH_CASE_SHAPE))]
+    pre = ("From Coq Require Import List Bool String.\nImport ListNotations.\nOpen Scope string_scope.\nFrom BT Require Model.GenTypes Model.SkelTie.\nFrom BTGen Require Signals ChanOps.\n")
+    body = ['Definition init_forwarded := forallb (fun c => negb (fst c =? "Run")) ChanOps.send_calls && existsb (fun o => (GenTypes.co_func o =? "Run") && (GenTypes.co_chan o =? "cmds")) ChanOps.chanops.',
+            'Definition t := (init_forwarded, SkelTie.shapes_ok_for ["Batch"], SkelTie.shapes_ok_for ["handleCommands"], SkelTie.shapes_ok_for ["eventLoop:BatchMsg"]).']
     vals, _ = C.coq_eval("cases_C02_tie", pre, body, ["t"], timeout=300)
     flags = [x == "true" for x in __import__("re").findall(r'true|false', vals["t"])]
     ok = all(flags) and len(flags) == 4
